@@ -634,6 +634,29 @@ def oracle_frechet(rep: Report, seed: int, count: int) -> None:
     rep.extra["dk_frechet_worst_ratio"] = worst
 
 
+U_NOTE = ("Props.C30.dhd_U_is_n_n / interaction_derivative_exact: dH/dU_ij = n_i n_j for EVERY pair i < j, whatever the current value "
+          "of U_ij - an entry U_ij = 0 has a non-zero gradient in general")
+
+
+def sparse_U_np(rng: random.Random, g, n: int, scale: float):
+    """symmetric interaction matrix with EXACT zeros: dense / nearest-neighbour chain / random sparsity 30-80 % / all-zero"""
+    np, torch = _np()
+    pattern = rng.choice(["dense", "chain", "sparse", "sparse", "zero"]) if n > 1 else "dense"
+    vals = np.abs(g.normal(size=(n, n))) * scale
+    if pattern == "chain":
+        keep = np.zeros((n, n), dtype=bool)
+        for i in range(n - 1):
+            keep[i, i + 1] = True
+    elif pattern == "sparse":
+        keep = g.random(size=(n, n)) >= rng.uniform(0.3, 0.8)
+    elif pattern == "zero":
+        keep = np.zeros((n, n), dtype=bool)
+    else:
+        keep = np.ones((n, n), dtype=bool)
+    U = np.triu(vals * keep, 1)
+    return U + U.T, pattern
+
+
 def gen_backward_case(case_seed: int):
     np, torch = _np()
     rng = random.Random(case_seed)
@@ -645,14 +668,14 @@ def gen_backward_case(case_seed: int):
     ph = np.zeros(n) if zero_phase else g.normal(size=n)
     if not zero_phase and rng.random() < 0.3:
         ph[rng.randrange(n)] = 0.0
-    U = np.abs(g.normal(size=(n, n))) * 3
-    U = np.triu(U, 1) + np.triu(U, 1).T
+    U, u_pattern = sparse_U_np(rng, g, n, 3.0)
     psi = g.normal(size=2 ** n) + 1j * g.normal(size=2 ** n)
     psi /= np.linalg.norm(psi)
     gv = (g.normal(size=2 ** n) + 1j * g.normal(size=2 ** n)) * rng.choice([1.0, 0.1, 10.0])
     dt = rng.choice([0.002, 0.01, 0.05, 0.2, 0.5, 1.0])
     tol = 10.0 ** (-rng.randint(8, 12))
-    return dict(n=n, om=om, de=de, ph=ph, U=U, psi=psi, g=gv, dt=dt, tol=tol, case_seed=case_seed, zero_phase=zero_phase)
+    return dict(n=n, om=om, de=de, ph=ph, U=U, psi=psi, g=gv, dt=dt, tol=tol, case_seed=case_seed, zero_phase=zero_phase,
+                u_pattern=u_pattern)
 
 
 def dense_backward(c):
@@ -720,6 +743,8 @@ def eval_backward_case(c):
             worst = ex
             detail = (f"d/d{name}{list(map(int, idx))}: backward {complex(got[idx]) if name == 'state' else float(got[idx]):.10e} vs dense Frechet derivative "
                       f"{complex(want[idx]) if name == 'state' else float(want[idx]):.10e} (|diff| {dev:.2e}, allowed {allow:.2e})")
+            if name == "U":
+                detail += f" [current value U{list(map(int, idx))} = {float(c['U'][idx])!r}; {U_NOTE}]"
     return worst, detail, wr
 
 
@@ -728,7 +753,9 @@ def oracle_backward(rep: Report, seed: int, count: int) -> None:
     for i in range(count):
         case_seed = seed * 1000003 + 7 * i + 6
         c = gen_backward_case(case_seed)
-        info = dict(kind="dk-backward", n=c["n"], dt=c["dt"], tol=c["tol"], zero_phase=c["zero_phase"], case_seed=case_seed)
+        info = dict(kind="dk-backward", n=c["n"], dt=c["dt"], tol=c["tol"], zero_phase=c["zero_phase"], u_pattern=c["u_pattern"],
+                    U=c["U"].tolist(), case_seed=case_seed)
+        rep.hist("dk_backward_U_pattern", c["u_pattern"])
         rep.case(key=("dk-backward", case_seed), nontrivial=True, trace=False)
         ex, detail, ratio = eval_backward_case(c)
         if ratio is not None:
@@ -841,8 +868,7 @@ def gen_zero_step_case(case_seed: int):
     om = np.stack([np.zeros(n), 1.0 + np.abs(g_.normal(size=n)) * 3])
     de = np.stack([np.zeros(n) if rng.random() < 0.5 else g_.normal(size=n) * 4, g_.normal(size=n) * 4])
     ph = np.stack([np.zeros(n) if rng.random() < 0.5 else g_.normal(size=n), np.zeros(n) if rng.random() < 0.3 else g_.normal(size=n)])
-    U = np.abs(g_.normal(size=(n, n))) * 3
-    U = np.triu(U, 1) + np.triu(U, 1).T
+    U, _ = sparse_U_np(rng, g_, n, 3.0)
     r = g_.normal(size=2 ** n) + 1j * g_.normal(size=2 ** n)
     w = g_.normal(size=n)
     dts = [rng.choice([0.01, 0.1, 0.5]), rng.choice([0.05, 0.2, 0.5])]
@@ -909,7 +935,8 @@ def eval_zero_step_case(c):
         if dev > allow:
             idx = np.unravel_index(int(np.abs(got - want[name]).argmax()), got.shape)
             return (f"d/d{name}{list(map(int, idx))}: backward {got[idx]!r} vs dense Frechet chain {want[name][idx]!r} "
-                    f"(|diff| {dev:.2e}, allowed {allow:.2e})"), worst
+                    f"(|diff| {dev:.2e}, allowed {allow:.2e})"
+                    + (f" [current value U{list(map(int, idx))} = {float(c['U'][idx])!r}; {U_NOTE}]" if name == "U" else "")), worst
     return None, worst
 
 
@@ -994,7 +1021,7 @@ def run(rep: Report, tier: str, seed: int, drv: Driver | None = None) -> None:
     correspondence_dense(rep, drv, seed, 20 if quick else 200)
     oracle_frechet(rep, seed, 120 if quick else 2000)
     oracle_degenerate(rep, seed, 40 if quick else 400)
-    oracle_backward(rep, seed, 25 if quick else 300)
+    oracle_backward(rep, seed, 40 if quick else 400)
     oracle_zero_first_step(rep, seed, 12 if quick else 120)
 
 
